@@ -35,6 +35,15 @@ Monitors (case kinds):
             (valid peers, refused peers, repeats) with x / y read in between; e / aes_cmac / ah
             are called again with an earlier key after other keys
 
+  identity-types   (inside rpa and reuse) the resolving keys' identity addresses carry ALL FOUR address types
+            (public device, random device, public identity, random identity): the resolved address equals
+            the key's identity in value AND kind (public / random), and the resolver knows it (can_resolve_to)
+  debugkey  the Security Manager's key-pair provider (smp.Manager.ecc_key, and what a new smp.Session
+            picks up from it) over HISTORIES of debug_mode on / off, repeated reads and new sessions, on both
+            back ends: with Debug mode ON the public key is the specification's debug key (Vol 3 Part H
+            2.3.5.6.1) and dh() with a generated peer gives the reference's DHKey for the debug scalar; with
+            it OFF the key is never the debug key and its public key is the reference's for its own scalar
+
 Entropy is NOT replaced here: generate(), generate_prand() draw from the OS.  Every other
 input is derived from the case seed; failing inputs are printed in full in the violation.
 """
@@ -60,7 +69,12 @@ RULE = ('seeded boundary-biased + random inputs (all-zero, all-one, single-bit, 
         'list, tuple, plain Sequence; also the one Device.refresh_resolving_list builds) answers 5-14 interleaved '
         'questions (RPA of key j made by the reference or by bumble, unrelated IRK, damaged hash, can_resolve_to of a '
         'listed / unlisted identity), one EccKey object per back end serves 4-7 dh() calls (valid, refused, repeated '
-        'peers, an accepted abscissa with a wrong ordinate); non-trivial from the second use of the object on.')
+        'peers, an accepted abscissa with a wrong ordinate); non-trivial from the second use of the object on. The '
+        'identity addresses of all resolving keys take the four address types (public / random x device / identity form) in '
+        'turn. debugkey: 12 histories per case of 8-14 steps over {read the manager\'s key pair, read it through a new '
+        'smp.Session, switch debug_mode, set it to the same value}, Debug mode initially on in one third (through '
+        'DeviceConfiguration or the attribute), back ends alternating; every history ends with a switch after a hand-out; '
+        'distinct = (back end, how configured, initial mode, step sequence).')
 ASSUMPTIONS = [
     'the reference implementations in vlib/ref_smpcrypto.py and vlib/ref_p256.py are correct; '
     'they reproduce every published vector listed in them (re-checked at the start of each shard)',
@@ -80,7 +94,14 @@ MIN_EVENTS = {
               'reuse_hits_after_a_hit_further_down': 150, 'reuse_misses_after_first': 500,
               'reuse_can_resolve_after_first': 400, 'reuse_device_resolver_lookups': 150,
               'reuse_dh_calls_after_first': 250, 'reuse_dh_after_rejected_key': 60,
-              'reuse_fn_repeats': 500},
+              'reuse_fn_repeats': 500,
+              **{f'resolved_identity_typed_{t}': 250 for t in ('public-device', 'random-device', 'public-identity',
+                                                               'random-identity')},
+              'resolved_identity_known_to_resolver_checks': 1500,
+              'debug_key_histories': 180, 'debug_key_reads_with_debug_on': 500, 'debug_key_reads_with_debug_off': 500,
+              'debug_key_reads_on_after_a_key_was_handed_out': 250, 'debug_key_reads_off_after_debug_was_on': 250,
+              'debug_key_reads_through_a_new_session': 300, 'debug_key_dh_checks': 300,
+              'debug_key_histories_builtin': 90, 'debug_key_histories_cryptography': 90},
     'thorough': {'e_evals': 50000, 'cmac_evals': 20000, 'cmac_exhaustive_lengths': 81 * 8,
                  'toolbox_evals': 50000, 'pubkey_evals': 100000, 'ecdh_evals': 200000,
                  'ecdh_symmetry_checks': 100000, 'invalid_keys_offered': 15000,
@@ -91,7 +112,14 @@ MIN_EVENTS = {
                  'reuse_hits_after_a_hit_further_down': 1500, 'reuse_misses_after_first': 5000,
                  'reuse_can_resolve_after_first': 4000, 'reuse_device_resolver_lookups': 1500,
                  'reuse_dh_calls_after_first': 2500, 'reuse_dh_after_rejected_key': 600,
-                 'reuse_fn_repeats': 5000},
+                 'reuse_fn_repeats': 5000,
+                 **{f'resolved_identity_typed_{t}': 2500 for t in ('public-device', 'random-device', 'public-identity',
+                                                                   'random-identity')},
+                 'resolved_identity_known_to_resolver_checks': 15000,
+                 'debug_key_histories': 1800, 'debug_key_reads_with_debug_on': 5000, 'debug_key_reads_with_debug_off': 5000,
+                 'debug_key_reads_on_after_a_key_was_handed_out': 2500, 'debug_key_reads_off_after_debug_was_on': 2500,
+                 'debug_key_reads_through_a_new_session': 3000, 'debug_key_dh_checks': 3000,
+                 'debug_key_histories_builtin': 900, 'debug_key_histories_cryptography': 900},
 }
 EXHAUSTIVE_NOTE = ('CMAC message lengths 0..80 for 8 keys covering all four (msb(L), msb(K1)) '
                    'sub-key paths; all 128 single-bit keys and blocks of e; every byte value at '
@@ -130,6 +158,8 @@ def plan(tier, seed):
         cases.append({'kind': 'rpa', 'seed': base + i, 'n': 80})
     for i in range(16 if q else 160):
         cases.append({'kind': 'reuse', 'seed': base + i, 'resolvers': 24, 'eccs': 4, 'fn_runs': 6})
+    for i in range(16 if q else 160):
+        cases.append({'kind': 'debugkey', 'seed': base + i, 'histories': 12})
     return cases
 
 
@@ -811,7 +841,8 @@ def run_rpa(case, r: R):
         u1, u2 = rng.randbytes(16), rng.randbytes(16)
         if irk in (u1, u2) or u1 == u2:
             continue
-        ident = Address(bytes(rng.randbytes(5) + bytes([0xC0 | rng.randrange(64)])), Address.RANDOM_DEVICE_ADDRESS)
+        ityp = IDENTITY_TYPES[i % 4]
+        ident = Address(bytes(rng.randbytes(5) + bytes([0xC0 | rng.randrange(64)])), _atype(ityp))
         other1 = Address(bytes(rng.randbytes(5) + b'\xC1'), Address.RANDOM_DEVICE_ADDRESS)
         other2 = Address(bytes(rng.randbytes(5) + b'\xC2'), Address.RANDOM_DEVICE_ADDRESS)
         for bn in BACKENDS:
@@ -837,6 +868,9 @@ def run_rpa(case, r: R):
                 r.ev('rpa_resolved', 1 if got[0] == 'ok' and got[1] is not None else 0)
                 r.check(got[0] == 'ok' and got[1] is not None and bytes(got[1]) == bytes(ident),
                         f'rpa/not-resolved/{tag}', f'irk={irk.hex()} rpa={ab.hex()}: resolve -> {got}')
+                if got[0] == 'ok' and got[1] is not None:
+                    judge_identity(r, got[1], ident, AddressResolver([(irk, ident)]), 'single-key',
+                                   f'irk={irk.hex()} rpa={ab.hex()} [{tag}]')
                 r.ev('rpa_unrelated_checked')
                 r.ev('oracle_evals')
                 if un1 != ('ok', None):
@@ -935,7 +969,7 @@ def lookup_sequence(r: R, rng: random.Random, resolver, keys, bn: str, origin: s
         if op in ('can-hit', 'can-miss'):
             if op == 'can-hit':
                 q = keys[rng.randrange(len(keys))][1]
-                q = Address(str(q), q.address_type)  # an equal address, not the same object
+                q = Address(bytes(q), q.address_type)  # an equal address, not the same object
             else:
                 q = Address(bytes(rng.randbytes(5) + b'\xC9'), Address.RANDOM_DEVICE_ADDRESS)
             want = any(bytes(q) == bytes(a) and q.is_public == a.is_public for _, a in keys)
@@ -978,10 +1012,13 @@ def lookup_sequence(r: R, rng: random.Random, resolver, keys, bn: str, origin: s
             elif bytes(got[1]) != bytes(want):
                 r.bad(f'rpa/reuse/wrong-identity/{pos}',
                       f'{where}: resolve -> {got[1]}, the first matching key is #{wj} with identity {want}')
-            elif got[1].is_public != want.is_public:
+            elif want.address_type in (Address.PUBLIC_DEVICE_ADDRESS, Address.RANDOM_DEVICE_ADDRESS) and \
+                    got[1].is_public != want.is_public:
                 r.bad(f'rpa/reuse/identity-kind/{pos}',
                       f'{where}: resolve -> {got[1]} of type {got[1].address_type}, identity {want} has type '
                       f'{want.address_type}')
+            else:
+                judge_identity(r, got[1], want, resolver, pos, where)
             prev_hit = wj
         else:
             r.ev('reuse_misses_after_first', 1 if later else 0)
@@ -991,17 +1028,56 @@ def lookup_sequence(r: R, rng: random.Random, resolver, keys, bn: str, origin: s
     return n_ops
 
 
+IDENTITY_TYPES = (0, 1, 2, 3)       # public device, random device, public identity, random identity (Vol 4 Part E 7.8.x)
+IDENTITY_TYPE_NAMES = {0: 'public-device', 1: 'random-device', 2: 'public-identity', 3: 'random-identity'}
+
+
+def _atype(code: int):
+    from bumble import hci
+    return hci.AddressType(code)
+
+
+def judge_identity(r: R, got, want, resolver, pos: str, where: str):
+    """`got` = what resolve() returned for an RPA owned by the key whose identity address is `want` (same six
+    bytes already established). The resolved address IS the identity: the same kind (public / random; written
+    here from the type codes 0/2 = public, 1/3 = random, not from Address.is_public), equal to it as bumble
+    compares addresses, and an identity the resolver itself says it can resolve to. The type the identity was
+    recorded with (device / identity form of the same address) is the discriminating class."""
+    tname = IDENTITY_TYPE_NAMES[int(want.address_type)]
+    r.ev(f'resolved_identity_typed_{tname}')
+    r.ev('oracle_evals')
+    want_public = int(want.address_type) in (0, 2)
+    got_public = int(got.address_type) in (0, 2)
+    if got_public != want_public:
+        r.bad(f'rpa/resolved-identity/kind-differs/identity-typed-{tname}/{pos}',
+              f'{where}: resolve -> {got!r} (type {int(got.address_type)}), the key\'s identity is {want!r} '
+              f'(type {int(want.address_type)}): a {"public" if want_public else "random"} identity came back as a '
+              f'{"public" if got_public else "random"} one')
+        return
+    eq = call(lambda: got == want and want == got)
+    if eq != ('ok', True):
+        r.bad(f'rpa/resolved-identity/not-equal-to-identity/identity-typed-{tname}/{pos}',
+              f'{where}: resolve -> {got!r}, which does not compare equal to the key\'s identity {want!r}: {eq}')
+        return
+    r.ev('resolved_identity_known_to_resolver_checks')
+    known = call(resolver.can_resolve_to, got)
+    if known != ('ok', True):
+        r.bad(f'rpa/resolved-identity/not-known-to-resolver/identity-typed-{tname}/{pos}',
+              f'{where}: resolve -> {got!r}, but can_resolve_to() of that address -> {known}')
+
+
 def gen_resolving_keys(rng: random.Random, n: int):
     from bumble.hci import Address
 
     keys = []
+    first = rng.randrange(4)
     for j in range(n):
         irk = gen_bytes(rng, 16) if rng.random() < 0.3 else rng.randbytes(16)
-        if rng.random() < 0.5:
-            ident = Address(bytes(rng.randbytes(4) + bytes([j, 0xC0 | rng.randrange(64)])),
-                            Address.RANDOM_DEVICE_ADDRESS)
-        else:
-            ident = Address(bytes(rng.randbytes(4) + bytes([j, rng.randrange(256)])), Address.PUBLIC_DEVICE_ADDRESS)
+        # all four address types an identity can be recorded with, in turn from a seeded start (the identity forms
+        # are what a resolved peer address carries, e.g. connection.peer_address of a resolved peer)
+        typ = IDENTITY_TYPES[(first + j) % 4]
+        last = (0xC0 | rng.randrange(64)) if typ in (1, 3) else rng.randrange(256)
+        ident = Address(bytes(rng.randbytes(4) + bytes([j, last])), _atype(typ))
         keys.append((irk, ident))
     return keys
 
@@ -1159,11 +1235,124 @@ def run_reuse(case, r: R):
                           f'reference {S.ah_le(k, pr).hex()}')
     r.sample = sample
 
+
+# =============================================================================
+# debugkey: the Security Manager's key-pair provider over histories of debug_mode
+# =============================================================================
+def run_debugkey(case, r: R):
+    from unittest import mock
+    from bumble import smp
+    from bumble.device import Device, DeviceConfiguration
+    from bumble.pairing import PairingConfig
+
+    rng = random.Random(case['seed'] ^ 0xDB6)
+    debug_pub = (b32(E.DEBUG_PUBLIC_X), b32(E.DEBUG_PUBLIC_Y))
+    sample = None
+    for h in range(case['histories']):
+        bn = BACKENDS[(h + case['seed']) % 2]
+        start_on = (h // 2) % 3 == 0
+        # a history: reads (through the manager / through a new Session) with debug_mode switched between them
+        n = rng.randint(4, 10)
+        ops = []
+        while len(ops) < n:
+            ops.append(rng.choice(['read', 'read', 'session', 'toggle', 'toggle', 'set-same']))
+        ops += ['read', 'toggle', 'read', 'session']        # every history ends with a switch after a hand-out
+        with patched(bn):
+            how = rng.choice(['config', 'attribute'])
+            if how == 'config':
+                device = Device(config=DeviceConfiguration(smp_debug_mode=start_on))
+            else:
+                device = Device()
+                device.smp_manager.debug_mode = start_on
+            mgr = device.smp_manager
+            on = start_on
+            handed_out = False      # a key pair (of either kind) was handed out before
+            handed_random = False   # ... a non-debug one
+            was_on = start_on
+            trail = [f'{how}:debug={"on" if on else "off"}']
+            for op in ops:
+                if op == 'toggle':
+                    on = not on
+                    mgr.debug_mode = on
+                    was_on = was_on or on
+                    trail.append('on' if on else 'off')
+                    continue
+                if op == 'set-same':
+                    mgr.debug_mode = on
+                    trail.append('on(again)' if on else 'off(again)')
+                    continue
+                if op == 'session':
+                    got = call(lambda: smp.Session(mgr, mock.MagicMock(), PairingConfig(), False).ecc_key)   # (a responder session: no running loop needed)
+                    r.ev('debug_key_reads_through_a_new_session')
+                    via = 'new-session'
+                else:
+                    got = call(lambda: mgr.ecc_key)
+                    via = 'manager'
+                trail.append(f'{op}')
+                state = 'debug-on' if on else 'debug-off'
+                hist = ('first-read' if not handed_out else
+                        ('after-a-random-key-was-handed-out' if handed_random else 'after-the-debug-key-was-handed-out')) if on \
+                    else ('first-read' if not handed_out else ('after-debug-was-on' if was_on else 'after-earlier-reads'))
+                r.ev(f'debug_key_reads_with_{"debug_on" if on else "debug_off"}')
+                if on and handed_random:
+                    r.ev('debug_key_reads_on_after_a_key_was_handed_out')
+                if not on and was_on:
+                    r.ev('debug_key_reads_off_after_debug_was_on')
+                r.ev('oracle_evals')
+                where = f'[{bn}] history {" > ".join(trail)}: key read through the {via}'
+                key = f'debug-key/{state}/{hist}/{via}/{bn}'
+                if got[0] != 'ok' or not isinstance(got[1], backend(bn).EccKey):
+                    r.bad(f'{key}/no-key', f'{where} -> {got}')
+                    handed_out = True
+                    continue
+                k = got[1]
+                pub = call(pub_of, k)
+                if on:
+                    if pub != ('ok', debug_pub):
+                        r.bad(f'{key}/not-the-debug-key',
+                              f'{where} with Debug mode ON has public key {show(pub[1])}; the specification\'s debug '
+                              f'public key (Vol 3 Part H 2.3.5.6.1) is {show(debug_pub)}')
+                    else:
+                        # ... and it really holds the debug private key: DHKey with a generated peer
+                        px, py = E.public_key(gen_scalar(rng)[0]) if rng.random() < 0.7 else \
+                            (E.BT_P256[0]['bx'], E.BT_P256[0]['by'])
+                        dh = call(k.dh, b32(px), b32(py))
+                        r.ev('debug_key_dh_checks')
+                        r.ev('oracle_evals')
+                        if dh != ('ok', E.ecdh(E.DEBUG_PRIVATE, px, py)):
+                            r.bad(f'{key}/dhkey-not-the-debug-scalars',
+                                  f'{where}: dh(({px:#x}, {py:#x})) -> {dh[0]}:{show(dh[1])}, reference for the debug '
+                                  f'private key {E.ecdh(E.DEBUG_PRIVATE, px, py).hex()}')
+                else:
+                    if pub == ('ok', debug_pub):
+                        r.bad(f'{key}/debug-key-in-use',
+                              f'{where} with Debug mode OFF is the specification\'s debug key pair')
+                    else:
+                        d = call(private_value, bn, k)
+                        if d[0] == 'ok':
+                            wp = E.public_key(d[1])
+                            r.ev('debug_key_own_public_key_checks')
+                            r.ev('oracle_evals')
+                            if pub != ('ok', (b32(wp[0]), b32(wp[1]))):
+                                r.bad(f'{key}/public-key-not-of-its-scalar',
+                                      f'{where}: public key {show(pub[1])}, the reference derives ({wp[0]:#x}, {wp[1]:#x}) '
+                                      f'from its scalar {d[1]:#x}')
+                    handed_random = True
+                handed_out = True
+        r.ev('debug_key_histories')
+        r.ev(f'debug_key_histories_{bn}')
+        r.evals()
+        r.sig('debugkey', bn, how, start_on, tuple(ops))
+        sample = {'kind': 'debugkey', 'backend': bn, 'history': trail}
+    r.sample = sample
+
+
 # =============================================================================
 RUNNERS = {
     'vectors': run_vectors, 'aes': run_aes, 'aes-sweep': run_aes_sweep, 'cmac-exh': run_cmac_exh,
     'cmac-rand': run_cmac_rand, 'toolbox': run_toolbox, 'ecc': run_ecc, 'points': run_points,
     'invalid': run_invalid, 'session': run_session, 'rpa': run_rpa, 'reuse': run_reuse,
+    'debugkey': run_debugkey,
 }
 
 
@@ -1184,7 +1373,11 @@ LEVEL_TEXT = ('Three-way differential monitoring: bumble.crypto.builtin and bumb
               '8 keys covering the four sub-key paths), 8.6x10^3 toolbox, 7.4x10^3 ECDH over 1.5x10^3 scalar '
               'pairs and 640 lifted points, 1.9x10^3 invalid peer keys offered to each back end, ~190 keys '
               'through smp.Session, 2.5x10^3 RPAs, 3.9x10^3 lookups on 384 re-used AddressResolver objects (3.5x10^3 of '
-              'them after the first) and ~600 dh() calls on re-used key objects; thorough 2.2x10^5 ECDH, 1.9x10^4 invalid '
+              'them after the first) and ~600 dh() calls on re-used key objects; resolving-key identities of all four address '
+              'types (~1.7x10^3 resolutions each, value and public/random kind compared with the key\'s identity, plus '
+              'can_resolve_to of the result); 192 histories of the Security Manager\'s key-pair provider with Debug mode '
+              'switched on and off between ~1.2x10^3 reads (debug public key and DHKey of the debug scalar when on, never '
+              'the debug key when off); thorough 2.2x10^5 ECDH, 1.9x10^4 invalid '
               'keys, 3.9x10^4 resolver lookups. Held = no refuting '
               'input among those evaluated; this is sampling of a 2^256-sized space, not proof.')
 LEVEL_NOTE = ('Trusted: vlib/ref_smpcrypto.py and vlib/ref_p256.py (self-tested against every published vector '
